@@ -26,12 +26,14 @@ func init() {
 func tree() (*memfs.FS, *refmodel.Model) {
 	fs := memfs.New()
 	fs.AddFile("d/x", []byte("hello world"))
+	fs.AddFile("d/sub/y", []byte("deep"))
 	fs.AddFile("f", []byte("0123456789"))
 	fs.MkdirP("e")
 	fs.AddNode("s", 0o120777, nil, "f")
 	fs.Root.Children["f"].Xattrs["user.k"] = []byte("vv")
 	m := refmodel.New()
 	m.Add("d/x", refmodel.KFile, "hello world")
+	m.Add("d/sub/y", refmodel.KFile, "deep")
 	f := m.Add("f", refmodel.KFile, "0123456789")
 	f.Xattrs["user.k"] = []byte("vv")
 	m.Add("e/.keep", refmodel.KFile, "")
@@ -55,6 +57,10 @@ func corpus(quick bool) []history {
 		{"rename-unlink-referenced", []refcodec.Msg{rawpeer.Tattach(0, 1, ""), rawpeer.Twalk(0, 1, 2, "f"), rawpeer.Twalk(0, 1, 3, "d", "x"), rawpeer.Twalk(0, 1, 4, "d"), rawpeer.Trenameat(0, 1, "f", 4, "g"), rawpeer.Tgetattr(0, 2),
 			rawpeer.Tunlinkat(0, 4, "g"), rawpeer.Tgetattr(0, 2), rawpeer.Trename(0, 3, 1, "y"), rawpeer.Tremove(0, 3), rawpeer.Tclunk(0, 2)}},
 		{"rename-dir-with-descendants", []refcodec.Msg{rawpeer.Tattach(0, 1, ""), rawpeer.Twalk(0, 1, 2, "d", "x"), rawpeer.Twalk(0, 1, 3, "d"), rawpeer.Twalk(0, 1, 4, "e"), rawpeer.Trenameat(0, 1, "d", 4, "dd"), rawpeer.Tgetattr(0, 2), rawpeer.Twalk(0, 3, 5, "x")}},
+		// fids TWO levels below the renamed directory: their notifications are delivered from inside the recursive traversal of the path tree
+		{"rename-dir-with-deep-descendants", []refcodec.Msg{rawpeer.Tattach(0, 1, ""), rawpeer.Twalk(0, 1, 2, "d", "sub", "y"), rawpeer.Twalk(0, 1, 3, "d", "sub"), rawpeer.Twalk(0, 1, 6, "d"), rawpeer.Twalk(0, 1, 4, "e"), rawpeer.Trenameat(0, 1, "d", 4, "dd"), rawpeer.Tgetattr(0, 2),
+			// a walk from the renamed directory to a name nobody has walked to yet (takes the directory's child lock for writing)
+			rawpeer.Twalk(0, 6, 7, "x"), rawpeer.Twalk(0, 3, 5, "y"), rawpeer.Tclunk(0, 2)}},
 		{"attach-name-remove", []refcodec.Msg{rawpeer.Tattach(0, 1, "d/x"), rawpeer.Tattach(0, 1, "d"), rawpeer.Twalk(0, 1, 3, "x"), rawpeer.Tremove(0, 3), rawpeer.Tremove(0, 1)}},
 		{"open-readdir", []refcodec.Msg{rawpeer.Tattach(0, 1, ""), rawpeer.Twalkgetattr(0, 1, 2, "d"), rawpeer.Tlopen(0, 2, 0), rawpeer.Treaddir(0, 2, 0, 4000), rawpeer.Tclunk(0, 2)}},
 		{"make-nodes", []refcodec.Msg{rawpeer.Tattach(0, 1, ""), rawpeer.Tmkdir(0, 1, "nd"), rawpeer.Tsymlink(0, 1, "sl", "f"), rawpeer.Twalk(0, 1, 2, "f"), rawpeer.Tlink(0, 1, 2, "hl"), rawpeer.Tmknod(0, 1, "fifo", 0o10644), rawpeer.Twalk(0, 1, 3, "s"), rawpeer.Treadlink(0, 3), rawpeer.Tsetattr(0, 2, 1, 0o600, 0), rawpeer.Tfsync(0, 2), rawpeer.Tstatfs(0, 1), rawpeer.Tlock(0, 2)}},
@@ -239,7 +245,7 @@ type errnoErr uint32
 func (e errnoErr) Error() string { return fmt.Sprintf("errno %d", uint32(e)) }
 
 func run(ctx *fw.Ctx, rep *fw.Report) {
-	rep.Rule = "corpus = 9 hand-written histories (failed multi-step walks, fid replacement, create-rebind, xattr fids, rename/unlink of referenced entries, directory rename with live descendants, attach names, open/readdir, node creation) + every history [attach; walk d; walk f; a; b] for all ordered pairs (a,b) of a 28-request structural alphabet (quick: a third of the first requests); for EVERY backend call index k of each history and every fault in {EIO, errno 117, panic} the fault is injected at call k and the history continues, followed by follow-up requests on every bound fid, write operations in every directory and a second connection on the same paths; each case is one execution under the controlled scheduler (default schedule) so that an unreleased lock shows as a precise deadlock instead of a hang; oracle: faulted request answered Rlerror(errno) / EFAULT, every later request answered, after an error the replies agree with the reference model from the pre-fault state (Tclunk/Tremove unbound), live backend handles == needed handles, every handle closed exactly once at disconnect (not asserted after a panic)"
+	rep.Rule = "corpus = 10 hand-written histories (failed multi-step walks, fid replacement, create-rebind, xattr fids, rename/unlink of referenced entries, directory rename with live descendants one and two levels below, attach names, open/readdir, node creation) + every history [attach; walk d; walk f; a; b] for all ordered pairs (a,b) of a 28-request structural alphabet (quick: a third of the first requests); for EVERY backend call index k of each history and every fault in {EIO, errno 117, panic} the fault is injected at call k and the history continues, followed by follow-up requests on every bound fid, write operations in every directory and a second connection on the same paths; each case is one execution under the controlled scheduler (default schedule) so that an unreleased lock shows as a precise deadlock instead of a hang; oracle: faulted request answered Rlerror(errno) / EFAULT, every later request answered, after an error the replies agree with the reference model from the pre-fault state (Tclunk/Tremove unbound), live backend handles == needed handles, every handle closed exactly once at disconnect (not asserted after a panic)"
 	rep.Assumptions = append(rep.Assumptions, "errors of Close and Renamed need not be reported (File contract: Close errors are ignored, Renamed cannot fail)", "after a panic only liveness is asserted (DESIGN §4.0)", "injected errors happen at call entry: the failing call itself has no effect", "default schedule only: schedule-dependent fault handling is covered by C05/C16")
 	hs := corpus(ctx.Quick())
 	rep.Info["histories"] = len(hs)
